@@ -4,7 +4,7 @@ from props import _positions as P
 THEOREMS = ['C15_window_shift', 'C15_from_text_slice_coord', 'C15_dyn_bytes_eq_str', 'C15_bytes_eq_str',
             'C15_lookbehind_refuted', 'C15_example', 'C15_parse_window_shift', 'C15_driver_ignores_positions',
             'C15_propagate_commutes', 'C15_parse_example']
-GEN_DEPS = ['LineCounter', 'LexStep', 'DynStep']
+GEN_DEPS = ['LineCounter', 'LexStep', 'DynStep', 'PropPos', 'TokenFields', 'CounterCopy']
 RULE = ('[routes: every comparison is also made through parse_interactive+feed_token+feed_eof, forks (copy(), copy.copy) '
         'finished separately, ImmutableInteractiveParser, copy.deepcopy(tree), Tree.copy(), pickle round trip and scan(), '
         'each also against parse() of the same input; token values must keep the exact Python type of the buffer] '
@@ -198,7 +198,7 @@ def run_complete_slice(g, parser, lexer, text, rep, extra):
 
 def witness(g, parser, lexer, text, rep, window, api, extra, complete_slice=False):
     return dict(grammar=g, parser=parser, lexer=lexer, text=text, rep=rep, window=list(window) if window else None,
-                api=api, extra=[[k, int(v)] for k, v in extra], complete_slice=complete_slice)
+                api=api, extra=[[k, v if isinstance(v, str) else int(v)] for k, v in extra], complete_slice=complete_slice)
 
 
 def run_witness(w):
@@ -258,24 +258,42 @@ class Diff:
                                                                         P.coq_ptree(rt, r, True, vt)), w))
 
     def col_add(self, out, w):
-        tr = out['tracer']
-        col = self.col
-        for rec in tr.counters.values():
-            if not rec.get('foreign'):
-                col.traces.append((P.coq_trace(rec), w))
-        for run in tr.runs.values():
-            c = P.coq_lex_case(run, tr)
-            if c:
-                col.lexes.append((c, w))
-        toks = P.result_tokens(out)
-        if out['dynamic'] and toks:
-            col.dyns.append((P.coq_dyn_case(out['buf'], toks), w))
+        self.col.add(out, w)
 
 
 F9_CASES = [
     ('F9:lookbehind-outside-window', 'start: FOO\nFOO: /\\bfoo/\n', 'foo', ('x', '')),
     ('F9:caret-at-window-start', 'start: FOO\nFOO: /^foo/\n', 'foo', ('x', '')),
 ]
+
+
+F51_GRAMMAR = 'start: "\\xe9" "a"\n'
+F51_TEXT = '\xe9a'
+
+
+def f51_outcomes(lexer):
+    """(str outcome, bytes outcome) of the F51 witness under lexer"""
+    from lark import Lark
+    res = []
+    for use_bytes in (False, True):
+        try:
+            lk = Lark(F51_GRAMMAR, parser='lalr', lexer=lexer, use_bytes=use_bytes)
+            t = lk.parse(F51_TEXT.encode('latin-1') if use_bytes else F51_TEXT)
+            res.append(('ok', [P.as_text(c.value) if hasattr(c, 'value') else str(c) for c in t.children], t.data))
+        except Exception as e:   # noqa
+            res.append(('error', type(e).__name__))
+    return res
+
+
+def f51(ctx):
+    for lexer in ('basic', 'contextual'):
+        s_out, b_out = f51_outcomes(lexer)
+        ctx.count('exotic-F51', key=(F51_GRAMMAR, lexer), nontrivial=True, outcome='%s/%s' % (s_out[0], b_out[0]))
+        if s_out != b_out:
+            ctx.violation('representation-differential',
+                          dict(f51=True, grammar=F51_GRAMMAR, text=F51_TEXT, lexer=lexer, parser='lalr'), True,
+                          'str run: %r, bytes run (use_bytes=True, latin-1 encoded): %r' % (s_out, b_out),
+                          key='F51:bytes-anon-nonascii-group-name')
 
 
 def correspond(ctx):
@@ -352,6 +370,9 @@ def correspond(ctx):
     for key, g, text, win in F9_CASES:
         for parser, lexer in (('lalr', 'basic'), ('lalr', 'contextual'), ('earley', 'basic')):
             d.case('exotic-F9', g, parser, lexer, text, (), 'str', win, key=key)
+    # F51 (listed finding): an anonymous non-ASCII literal written with an escape in an ASCII grammar gets a non-ASCII
+    # auto name, which is not a valid group name in a bytes regexp: str parses, bytes raises re.error at construction
+    f51(ctx)
     # regression witness of F30 (repaired): complete-text TextSlice under the dynamic lexers
     for lexer in P.DYNAMIC:
         for rep in ('str', 'bytes'):
@@ -382,6 +403,9 @@ def correspond(ctx):
 
 def replay(ctx, case):
     w = case['witness']
+    if w.get('f51'):
+        s_out, b_out = f51_outcomes(w['lexer'])
+        return s_out != b_out
     if 'grammar' not in w:
         return False
     return bool(run_witness(w))
